@@ -2,7 +2,7 @@
    closed by [exact]; pinned again in coq/audit/C0x.v.  What each one says in words
    is in the comment above it; what is NOT proved is said there too. *)
 From VP Require Import Base.Tactics Zdd.Model Zdd.ProofsBase Zdd.ProofsPwo Zdd.ProofsArena
-  Sase.Model Sase.ProofsBounds Sase.ProofsSound Sase.ProofsSoundEngine Sase.ProofsCompile Sase.ProofsPattern Sase.ProofsKleene.
+  Sase.Model Sase.ProofsBounds Sase.ProofsSound Sase.ProofsSoundEngine Sase.ProofsCompile Sase.ProofsPattern Sase.ProofsKleene Sase.ProofsKeyed.
 
 (* ------------------------------------------------------------------ C01 *)
 (* For every pattern (any number of steps, any `all` flags, any filters), every list of
@@ -32,8 +32,8 @@ Qed.
    filter under the captures made before it (a filter of an `all` step that refers to the
    step's own alias is the business of enumeration, C03), no event of the segment satisfies a
    .not clause under the captures at that time, and the occurrence ends in the last step.
-   NOT covered by this statement: the partition clause of C01 (all events of a match share the
-   partition value) -- tied by the differential check and the oracle only. *)
+   The partition clause of C01 (all events of a match share the partition value) is the
+   separate theorem C04_matches_single_key below. *)
 Definition occurrence (steps : list step) (negs : list (N * option pred)) (P : list event) (m : mres) : Prop :=
   exists es st j, infix es P /\ pocc steps negs es st j /\ S j = length steps /\
                   m_stack m = map (fun x => eid (fst x)) st.
@@ -134,3 +134,17 @@ Theorem C02_soundness_partial :
     run_collect (mkCfg (compile steps) negs part max_runs st lim) engine0 evs = Some out ->
     Forall (Forall (genuine (compile steps) negs evs)) out.
 Proof. exact C01_matches_have_derivations_partial. Qed.
+
+(* ------------------------------------------------ C01 partition clause / C04 *)
+(* With partition_by f: for every pattern, configuration and stream, every match emitted while
+   processing an event x consists only of events whose partition value (field f, or "missing")
+   equals x's; and every stored run holds events of its partition's value only. *)
+Theorem C04_matches_single_key :
+  forall g f evs out, g_part g = Some f -> run_tagged g engine0 evs = Some out ->
+    Forall (fun p => Forall (match_keyed f (ekey f (fst p))) (snd p)) out.
+Proof. intros g f evs out Hp H. exact (stream_keyed g f Hp evs engine0 out (Forall_nil _) H). Qed.
+
+Theorem C04_runs_single_key :
+  forall g f en x en' ms, g_part g = Some f -> parts_keyed f (e_parts en) -> process g en x = Some (en', ms) ->
+    parts_keyed f (e_parts en') /\ Forall (match_keyed f (ekey f x)) ms.
+Proof. exact process_keyed. Qed.
